@@ -309,6 +309,13 @@ def _eval_case(case, clauses=("C03", "C04", "C05", "C06", "C07", "C08")):
         md = Multidecoder(reg)
         root = md.scan(text, k)
         trees[k] = T(root)[5]
+        if k != depth and k in (1, 2):
+            if "C03" in clauses:
+                errs += [("C03", f"depth {k}: {e}") for e in check_wf(root, text)]
+            if "C04" in clauses:
+                errs += [("C04", f"depth {k}: {e}") for e in check_context_preservation(root, log)]
+            if "C05" in clauses:
+                errs += [("C05", f"depth {k}: {e}") for e in check_laminar(root)]
         if k != depth:
             if k in (1, 2) and "C06" in clauses:
                 log2 = {}
